@@ -83,13 +83,29 @@ func runAnalyzerCampaign(tier string, seed int64) (*analyzerCampaign, error) {
 	ac.cases, ac.errs = buildAnalyzerCases(tier, seed, filepath.Join(scratch, "cases"))
 	reqs := make([]*Req, len(ac.cases))
 	for i, c := range ac.cases {
-		reqs[i] = c.Req("analyze", nil)
+		if c.Source == "fixture" {
+			reqs[i] = c.Req("analyze", nil)
+			continue
+		}
+		// the analyzer is asked again after a Flatten (alternately Minimal and full+RemoveUnused) of its document
+		reqs[i] = c.Req("analyze", analyzeArgs{ThenFlatten: true, Full: i%2 == 1})
 	}
 	pool := &Pool{Exe: selfExe(), N: nWorkers(), Timeout: 20 * time.Second}
 	ac.resps = pool.Run(reqs)
 	recs := []json.RawMessage{}
 	for _, r := range ac.resps {
 		if r.Err == "" && r.Crash == "" && r.Rec != nil {
+			var full analyzerRec
+			if json.Unmarshal(r.Rec, &full) == nil && full.After != nil {
+				aft := full.After
+				full.After = nil
+				if b1, e1 := json.Marshal(&full); e1 == nil {
+					if b2, e2 := json.Marshal(aft); e2 == nil {
+						recs = append(recs, b1, b2)
+						continue
+					}
+				}
+			}
 			recs = append(recs, r.Rec)
 		}
 	}
@@ -149,7 +165,7 @@ func checkAnalyzer(prop, tier string, seed int64) int {
 			diagsByTid[tid] = append(diagsByTid[tid], d)
 		}
 	}
-	crashes, loadErrs := 0, 0
+	crashes, loadErrs, afterFlatten := 0, 0, 0
 	for i, c := range ac.cases {
 		r := ac.resps[i]
 		if r.Crash != "" {
@@ -194,11 +210,32 @@ func checkAnalyzer(prop, tier string, seed int64) int {
 				rep.Samples = append(rep.Samples, map[string]any{"tid": c.Tid, "source": c.Source, "note": c.Note, "nodes": st[0], "refs": st[1], "schemas": st[2], "patterns": st[3], "enums": st[4], "names": sampleNames(r.Names)})
 			}
 		}
-		if v[prop] {
+		tidBad := c.Tid
+		if v2, has := ac.tlc.Verdicts[c.Tid+"~f"]; has {
+			rep.Evaluations++
+			afterFlatten++
+			if v[prop] && !v2[prop] {
+				tidBad = c.Tid + "~f" // sound right after New, not any more after Flatten
+			} else if v2[prop] {
+				rep.TracesOK++
+			}
+		}
+		if v[prop] && tidBad == c.Tid {
 			rep.TracesOK++
 			continue
 		}
 		sig, what := prop+":unclassified", "verdict false"
+		if tidBad != c.Tid {
+			sig = prop + ":after-flatten:unclassified"
+			if ds := diagsByTid[tidBad]; len(ds) > 0 {
+				_, _, clause, shape := diagShape(ds[0])
+				sig = prop + ":after-flatten:" + clause + ":" + shape
+				what = "the analyzer handed to Flatten, asked again: " + ds[0]
+			}
+			replay := c.SaveReplay(prop, "analyze", analyzeArgs{ThenFlatten: true, Full: i%2 == 1}, map[string]string{"diag.txt": strings.Join(diagsByTid[tidBad], "\n"), "record.json": string(r.Rec)})
+			rep.AddViolation(Violation{Prop: prop, Tid: tidBad, Sig: sig, What: what, Replay: replay})
+			continue
+		}
 		if ds := diagsByTid[c.Tid]; len(ds) > 0 {
 			_, _, clause, shape := diagShape(ds[0])
 			sig = prop + ":" + clause + ":" + shape
@@ -207,6 +244,7 @@ func checkAnalyzer(prop, tier string, seed int64) int {
 		replay := c.SaveReplay(prop, "analyze", nil, map[string]string{"diag.txt": strings.Join(diagsByTid[c.Tid], "\n"), "record.json": string(r.Rec)})
 		rep.AddViolation(Violation{Prop: prop, Tid: c.Tid, Sig: sig, What: what, Replay: replay})
 	}
+	rep.Extra["documents_asked_again_after_flatten"] = afterFlatten
 	rep.Extra["crashes_seen"] = crashes
 	rep.Extra["fixtures_not_loadable"] = loadErrs
 	rep.Extra["tlc_wall_s"] = ac.tlc.WallS
